@@ -463,6 +463,9 @@ func checkCorpus(p *Prog, r *Result, rule string, desc map[string]interface{}) {
 func checkC13(p *Prog, r *Result, tier string) {
 	r.Rule("C13.R1", "no hop reorders: no call into sort or math/rand in the package; the search iterator is filled by an unconditional append per result entry, in range order; the collector appends in iteration order", 3)
 	r.Rule("C13.R2", "Reverse is honoured: reversed() sets the flag and the cursor to len-1; next() decrements the cursor iff the flag is set and increments it otherwise; collect calls reversed() only under the search's reverse flag and before the first next()", 3)
+	r.Rule("C13.R6", "the iterator makes progress: in next(), every path from the read of the current element to a return steps the cursor, also when the read failed (callers such as the bulk delete continue after a read error and rely on reaching the end)", 1)
+	r.Rule("C13.R7", "the sorted slice of a field index stays sorted by construction: it is written only (a) in a function that computes the position with the bisection, (b) by compaction (append of two sub-slices of itself), (c) by replacing it with an empty slice, or (d) by the decoder, whose result the index control checks for order", 3)
+	checkSortedSliceWriters(p, r, "C13.R7")
 	r.Rule("C13.R3", "Limit pairing: in the collecting loop every append to the output is paired with exactly one limit decrement in the same block, and the loop guard tests limit > 0 before each append", 2)
 	r.Rule("C13.R4", "One: sets the limit to the constant 1 before collecting, returns element 0, and reports ErrNoObjectFound on an empty result", 3)
 	r.Rule("C13.R5", "AssignIndex identity mapping: the target slice is made with len(index) elements and every element i of the target is set from element i of the index (same induction variable)", 2)
@@ -599,6 +602,9 @@ func checkC13(p *Prog, r *Result, tier string) {
 			} else {
 				r.Report("C13.R2", FuncName(nx), "cursor moves by -1 iff reversed, +1 otherwise", Violated, "next() does not step the cursor by -1 under the reverse flag and +1 otherwise", p.Pos(nx.Pos()), nil, true)
 			}
+		}
+		if nx := p.FuncByName(itn.Obj().Name() + ".next"); nx != nil {
+			checkIteratorProgress(p, computeClosures(p), r, "C13.R6", nx, itn, fi)
 		}
 		if rv := p.FuncByName(itn.Obj().Name() + ".reversed"); rv != nil {
 			flag, cur := false, false
@@ -953,6 +959,195 @@ func checkDiscovery(p *Prog, r *Result, rule, tmpRule string) {
 				r.Report(tmpRule, FuncName(tf), construct, Violated, fmt.Sprintf("a leftover temporary file %q (crash before the rename) is taken for the stored object %q by the integrity control and by Repair, which then fails reading the missing object file", filepath.Base(tmp), got), p.Pos(tf.Pos()), nil, true)
 			default:
 				r.Report(tmpRule, FuncName(tf), construct, Discharged, filepath.Base(tmp), p.Pos(tf.Pos()), nil, true)
+			}
+		}
+	}
+}
+
+// checkIteratorProgress: after the element read in next(), no return is reachable without a cursor step.
+func checkIteratorProgress(p *Prog, c *Closures, r *Result, rule string, nx *ssa.Function, itn *types.Named, cursor *types.Var) {
+	isStep := func(in ssa.Instruction) bool {
+		switch v := in.(type) {
+		case *ssa.Store:
+			if _, f, _ := fieldOf(v.Addr); f == cursor {
+				return true
+			}
+		case *ssa.Call:
+			// a helper of the iterator that steps the cursor on all of its paths is not modelled: any helper that
+			// stores the cursor counts only if it has a single block path (straight-line) or stores in every path
+			if g := v.Call.StaticCallee(); g != nil && g != nx && recvIs(g, itn) && g.Blocks != nil {
+				return stepsOnAllPaths(g, cursor)
+			}
+		}
+		return false
+	}
+	n := 0
+	for _, b := range nx.Blocks {
+		for i, in := range b.Instrs {
+			call, ok := in.(*ssa.Call)
+			if !ok {
+				continue
+			}
+			g := call.Call.StaticCallee()
+			if g == nil || !inSod(p, g) || !(c.Of(g).Has(EFsRObj) || c.Of(g).Has(EGetCache) || c.Of(g).Has(EGetUnk)) {
+				continue
+			}
+			n++
+			// search a return reachable without a step
+			var bad *ssa.Return
+			seen := map[*ssa.BasicBlock]bool{}
+			var walk func(blk *ssa.BasicBlock, from int)
+			walk = func(blk *ssa.BasicBlock, from int) {
+				if bad != nil {
+					return
+				}
+				for _, x := range blk.Instrs[from:] {
+					if isStep(x) {
+						return
+					}
+					if ret, ok := x.(*ssa.Return); ok {
+						bad = ret
+						return
+					}
+				}
+				for _, sb := range blk.Succs {
+					if !seen[sb] {
+						seen[sb] = true
+						walk(sb, 0)
+					}
+				}
+			}
+			walk(b, i+1)
+			if bad != nil {
+				r.Report(rule, FuncName(nx), "cursor stepped on every path after the element read", Violated, "next() can return after reading the current element without stepping the cursor (e.g. on a read error): a caller that continues after the error gets the same element forever and never reaches the end of iteration", p.Pos(bad.Pos()), nil, true)
+			} else {
+				r.Report(rule, FuncName(nx), "cursor stepped on every path after the element read", Discharged, "", p.Pos(in.Pos()), nil, true)
+			}
+		}
+	}
+	if n == 0 {
+		r.Report(rule, FuncName(nx), "cursor stepped on every path after the element read", Undecided, "next() does not read an element through a recognisable lookup", p.Pos(nx.Pos()), nil, true)
+	}
+}
+
+// stepsOnAllPaths: every path from the entry of g to a return contains a store to the cursor field.
+func stepsOnAllPaths(g *ssa.Function, cursor *types.Var) bool {
+	seen := map[*ssa.BasicBlock]bool{}
+	ok := true
+	var walk func(b *ssa.BasicBlock)
+	walk = func(b *ssa.BasicBlock) {
+		if !ok || seen[b] {
+			return
+		}
+		seen[b] = true
+		for _, in := range b.Instrs {
+			if st, isSt := in.(*ssa.Store); isSt {
+				if _, f, _ := fieldOf(st.Addr); f == cursor {
+					return
+				}
+			}
+			if _, isRet := in.(*ssa.Return); isRet {
+				ok = false
+				return
+			}
+		}
+		for _, sb := range b.Succs {
+			walk(sb)
+		}
+	}
+	walk(g.Blocks[0])
+	return ok
+}
+
+// checkSortedSliceWriters: who writes fieldIndex.Index, and how.
+func checkSortedSliceWriters(p *Prog, r *Result, rule string) {
+	a := p.A
+	fromSelf := func(v ssa.Value) bool { // a sub-slice of (a load of) the sorted slice
+		for {
+			switch x := v.(type) {
+			case *ssa.Slice:
+				v = x.X
+				continue
+			case *ssa.UnOp:
+				_, f, _ := loadedField(x)
+				return f == a.FIIndex
+			}
+			return false
+		}
+	}
+	isBisect := func(g *ssa.Function) bool {
+		if g == nil || !recvIs(g, a.FieldIndex) || g.Signature.Results().Len() != 1 {
+			return false
+		}
+		if b, ok := g.Signature.Results().At(0).Type().Underlying().(*types.Basic); !ok || b.Kind() != types.Int {
+			return false
+		}
+		for _, h := range calleesWithin(p, g, 3) {
+			if recvIs(h, a.IndexedField) && h.Signature.Params().Len() == 1 && named(h.Signature.Params().At(0).Type()) == a.IndexedField && h.Signature.Results().Len() == 1 {
+				if b, ok := h.Signature.Results().At(0).Type().Underlying().(*types.Basic); ok && b.Kind() == types.Bool {
+					return true
+				}
+			}
+		}
+		return false
+	}
+	for _, fn := range p.Funcs {
+		if !inSod(p, fn) {
+			continue
+		}
+		bis := false
+		for _, b := range fn.Blocks {
+			for _, in := range b.Instrs {
+				if c, ok := in.(ssa.CallInstruction); ok && isBisect(c.Common().StaticCallee()) {
+					bis = true
+				}
+			}
+		}
+		decoder := fn.Name() == "UnmarshalJSON" && recvIs(fn, a.FieldIndex)
+		report := func(in ssa.Instruction, how string, ok bool) {
+			construct := "write of the sorted slice: " + how
+			if ok {
+				r.Report(rule, FuncName(fn), construct, Discharged, "", p.Pos(in.Pos()), nil, true)
+			} else {
+				r.Report(rule, FuncName(fn), construct, Violated, "the sorted slice of a field index is written outside the sorted insertion, the compaction, the reset and the decoder: its order (which bisection, result order, Reverse, Limit and One rely on) is no longer guaranteed by construction", p.Pos(in.Pos()), nil, true)
+			}
+		}
+		for _, b := range fn.Blocks {
+			for _, in := range b.Instrs {
+				switch v := in.(type) {
+				case *ssa.Store:
+					if _, f, _ := fieldOf(v.Addr); f == a.FIIndex {
+						switch val := v.Val.(type) {
+						case *ssa.MakeSlice:
+							report(in, "reset", true)
+						case *ssa.Slice:
+							// make([]T, 0) with constant size is `new [0]T` + slice
+							if al, ok := val.X.(*ssa.Alloc); ok {
+								if arr, ok := al.Type().(*types.Pointer).Elem().Underlying().(*types.Array); ok && arr.Len() == 0 {
+									report(in, "reset", true)
+									break
+								}
+							}
+							report(in, "field store", bis || decoder)
+						case *ssa.Const:
+							report(in, "reset", val.IsNil())
+						case *ssa.Call:
+							if bi, ok := val.Call.Value.(*ssa.Builtin); ok && bi.Name() == "append" && len(val.Call.Args) == 2 && fromSelf(val.Call.Args[0]) && fromSelf(val.Call.Args[1]) {
+								report(in, "compaction", true)
+							} else {
+								report(in, "field store", bis || decoder)
+							}
+						default:
+							report(in, "field store", bis || decoder)
+						}
+					} else if ia, ok := v.Addr.(*ssa.IndexAddr); ok && fromSelf(ia.X) {
+						report(in, "element store", bis || decoder)
+					}
+				case *ssa.Call:
+					if bi, ok := v.Call.Value.(*ssa.Builtin); ok && bi.Name() == "copy" && len(v.Call.Args) == 2 && fromSelf(v.Call.Args[0]) {
+						report(in, "copy into it", bis || decoder)
+					}
+				}
 			}
 		}
 	}
